@@ -3,8 +3,8 @@
    /repo/src/aioslsk/transfer/state.py on every run; `documented` is C03/Spec.v, the graph of
    docs/diagrams/Transfer States.png.  Machine and effect semantics: C03/Model.v. *)
 From Slsk Require Import Base.Tac.
-From SlskGen Require Import TransGen.
-From Slsk Require Import C03.Spec C03.Model C03.Proofs.
+From SlskGen Require Import TransGen TransferGen.
+From Slsk Require Import C03.Spec C03.Model C03.Proofs C03.Listen.
 
 (* Every transition a state class defines is an edge of the documented graph
    (for every state, direction and operation; the table is closed by computation on the regenerated text). *)
@@ -77,6 +77,36 @@ Theorem C03_concurrent_refusal_no_effect : forall b m e m' o i,
   step b m e = (m', o) -> In (ORet i false) o -> m_t m' = m_t m /\ o = [ORet i false].
 Proof. exact concurrent_refusal_thm. Qed.
 
+(* The Transfer helper methods behind the effect atoms are regenerated from transfer/model.py (the m_ definitions of TransferGen);
+   every field step they contain has an interpretation on the model record (nothing silently ignored). *)
+Theorem C03_helper_methods_supported : methods_supported_b = true.
+Proof. exact methods_supported_b_true. Qed.
+
+(* TransferManager.abort / queue / pause (regenerated: which state method, which arguments, raise iff it returned
+   False): InvalidStateTransition is raised iff the current state class does not define the operation, then nothing
+   changed and no listener was told anything; otherwise every reported edge is documented. *)
+Theorem C03_manager_raises_iff_refused : forall t m t' r ed, mgr_step t m = (t', r, ed) ->
+  (r = MInvalidStateTransition <-> trans (t_state t) (t_dir t) (c_op (mgr_call m)) = None) /\
+  (r = MInvalidStateTransition -> t' = t /\ ed = []) /\ edges_documented ed.
+Proof. exact mgr_thm. Qed.
+
+(* Listeners (C03/Listen.v: the lock machine with n listeners, flags ls = which of them suspend; Transfer.transition
+   announces the change while the lock is held -- fingerprinted, TransferGen.notify_inside_lock).
+   For ALL schedules, including completions of suspended listeners at any point: every listener is only ever told
+   documented edges ... *)
+Theorem C03_listeners_documented : forall ls es m, l_holder m = None -> lobs_documented (snd (lrun ls m es)).
+Proof. exact listeners_documented_thm. Qed.
+
+(* ... and all listeners are told the same chain of changes: at any point of any schedule listener x has been told
+   exactly what listener 0 has been told, except that while the caller is suspended inside listener j announcing
+   a -> b the listeners after j have not yet been told that one change. *)
+Theorem C03_listeners_same_chain : forall ls es t,
+  told_same (length ls) (fst (lrun ls (lidle t) es)) (snd (lrun ls (lidle t) es)).
+Proof. exact listeners_same_chain_thm. Qed.
+
+Theorem C03_notify_inside_lock : notify_inside_lock = true.
+Proof. reflexivity. Qed.
+
 (* ---------- non-vacuity ---------- *)
 Example C03_edges_documented_nonvacuous :
   trans QUEUED Download OAbort <> None /\ trans COMPLETE Upload OQueue <> None /\
@@ -115,3 +145,18 @@ Proof. vm_compute. reflexivity. Qed.
 Example C03_captured_dispatch_would_fail :
   exists t es a b, In (OEdge a b) (snd (run false (idle t) es)) /\ documented a b = false.
 Proof. exact concurrent_captured_refuted. Qed.
+
+Example C03_manager_nonvacuous :
+  snd (fst (mgr_step f01_transfer MAbort)) = MOk /\ snd (fst (mgr_step f01_transfer MQueue)) = MInvalidStateTransition /\
+  c_reason (mgr_call MAbort) = Some REQUESTED_ID.
+Proof. repeat split; reflexivity. Qed.
+
+(* the scenario of the seeded change C03-m1 (slow first listener, queue() then initialize() on a PAUSED download):
+   the second operation waits for the lock until every listener has been told PAUSED -> QUEUED *)
+Example C03_listeners_nonvacuous :
+  let t := mkT PAUSED Download None None false None None 0%N 0%N 0%N false false false false TNone TNone in
+  snd (lrun [true; false; false] (lidle t)
+         [Capture (mkCall OQueue None false); Start 0; Capture (mkCall OInitialize None false); Start 1; Step; Wake; Step]) =
+  [LSeen 0 PAUSED QUEUED; LSeen 1 PAUSED QUEUED; LSeen 2 PAUSED QUEUED; LRet 0 true;
+   LSeen 0 QUEUED INITIALIZING; LSeen 1 QUEUED INITIALIZING; LSeen 2 QUEUED INITIALIZING; LRet 1 true].
+Proof. vm_compute. reflexivity. Qed.
